@@ -149,9 +149,44 @@ const (
 func canonTokens(p rtcp.Packet) string {
 	q := quantPacket(p)
 	if x, ok := q.(*rtcp.ExtendedReport); ok {
-		_, _ = x.Marshal()
+		q = xrCanonHeaders(x)
 	}
 	return packetTokens(q)
+}
+
+// xrCanonHeaders: the block headers a decoder must return for x, computed from RFC 3611 (not by calling Marshal):
+// registered block type (an opaque block keeps its own), type-specific octet from the fields, length in words - 1
+func xrCanonHeaders(x *rtcp.ExtendedReport) *rtcp.ExtendedReport {
+	c := &rtcp.ExtendedReport{SenderSSRC: x.SenderSSRC}
+	for _, b := range x.Reports {
+		hdr, omits, vals, elems := xrParts(b)
+		kind := xrKindOf(b)
+		if kind != 0 {
+			hdr.BlockType = rtcp.BlockTypeType(kind)
+		}
+		switch kind {
+		case 1, 2, 3:
+			hdr.TypeSpecific = rtcp.TypeSpecificField(omits[0] & 0x0f)
+		case 6:
+			ts := uint64(0)
+			if omits[0] != 0 {
+				ts |= 0x80
+			}
+			if omits[1] != 0 {
+				ts |= 0x40
+			}
+			if omits[2] != 0 {
+				ts |= 0x20
+			}
+			ts |= (omits[3] & 3) << 3
+			hdr.TypeSpecific = rtcp.TypeSpecificField(ts)
+		case 4, 5, 7:
+			hdr.TypeSpecific = 0
+		}
+		hdr.BlockLength = uint16(xrBlockSizeSpec(b)/4 - 1)
+		c.Reports = append(c.Reports, xrBuild(kind, hdr, omits, vals, elems))
+	}
+	return c
 }
 
 func allWF(ps []rtcp.Packet) bool {
@@ -217,6 +252,21 @@ func rtOracle(args, res string, kindsOnly bool) string {
 				return tagged(fmt.Sprintf("packet %d: %s is emitted with the header of %s", i, kindName(p), k), p, tagSLI)
 			}
 			off += l
+		}
+		// every frame is in place and carries the right header: if each type's own decoder accepts its frame, the
+		// rejection is the dispatcher's
+		off = 0
+		all := true
+		for _, p := range ps {
+			l := p.MarshalSize()
+			k := kindName(p)
+			if k == "SLI" || execOp("dec."+k+" "+hx(b[off:off+l])) == "err" {
+				all = false
+			}
+			off += l
+		}
+		if all {
+			return "the datagram decoder rejects frames that their own types' decoders accept"
 		}
 		return ""
 	}
